@@ -63,7 +63,11 @@ PROP = dict(
                    floors={"mpt_stream_sync": 40000, "sync:two-or-more-pending": 30000, "peer:replies-sent": 150000,
                            "monitor:reply-body-compared": 150000, "monitor:reply-delivery-accounted": 150000,
                            "monitor:request-id-compared": 150000, "history:answered-out-of-order": 10000,
-                           "history:reply-id-reused": 10000}),
+                           "history:reply-id-reused": 8000,
+                           "round:partial-answers": 20000, "round:handler-error-planned": 15000, "callback:reply-handler-error": 15000,
+                           "mpt_stream_sync(timeout 0)": 15000, "mpt_stream_sync(blocking)": 15000,
+                           "monitor:waiting-entry-compared": 200000, "sync:waiting-entry-moved-by-compaction": 8000,
+                           "history:compaction-moved-waiting-entry": 4000, "peer:repeated-replies": 5000}),
               ],
         rule=("c12_id: case = one boundary (id, width) pair or one random id run through widths 0..9 together with nine random headers; "
               "non-trivial = non-zero id accepted by at least one width > 0 (or, for boundary pairs, a refusal within one bit of the width's "
@@ -83,7 +87,8 @@ PROP = dict(
             "connection legs use the connection as the library's own callers do: id width written to con.out._idlen (examples/io/mclient.c), input step = "
             "mpt_stream_poll on the connection's stream / mpt_outdata_recv on its socket followed by mpt_connection_dispatch (output_remote.c); "
             "peers are well behaved (every reply answers an outstanding request, once)",
-            "mpt_stream_sync is called with timeout -1 on a blocking descriptor after the peer has written the replies to all pending requests; "
+            "mpt_stream_sync is called with timeout -1 on a blocking descriptor when the peer has written the replies to all pending requests, with timeout 0 when only a part is answered (its return value is then not judged); "
+            "a repeated reply is only sent for an id no pending request uses, in front of real answers of the same round; "
             "2 s of CPU time or 60 s of wall time inside the call count as missing progress",
             "a reply whose COBS size plus 4 bytes fits the free output space must be accepted by mpt_stream_reply; finished bytes of the output queue are final",
             "a request armed on the context when its reference is released with the transport attached must get one default (NULL message) send, also while deferred handles are outstanding",
